@@ -41,7 +41,7 @@ func main() {
 			usage()
 		}
 		os.Exit(runCheck(*repo, *verif, *prop, *tier, *timeout, *par, *keep))
-	case "vc", "ssa", "list":
+	case "vc", "ssa", "list", "locals":
 		os.Exit(runDebug(cmd, *repo, *verif, *fnKey, *out, *timeout, *par))
 	default:
 		usage()
@@ -101,6 +101,37 @@ func runDebug(cmd, repo, verif, fnKey, out string, timeout, par int) int {
 	if err != nil {
 		fmt.Fprintln(os.Stderr, "error:", err)
 		return 2
+	}
+	if cmd == "locals" {
+		// one line per contract: key <TAB> locals in source order (input of bin/gen-locals)
+		var ks []string
+		for k := range w.contracts {
+			ks = append(ks, k)
+		}
+		sort.Strings(ks)
+		for _, k := range ks {
+			c := w.contracts[k]
+			if c.IsLemma || c.Trusted {
+				continue
+			}
+			fn := w.funcs[k]
+			if fn == nil && c.View != "" {
+				fn = w.funcs[strings.TrimSuffix(k, "@"+c.View)]
+			}
+			if fn == nil {
+				continue
+			}
+			var ps []string
+			for _, p := range fn.Params {
+				n := p.Name()
+				if n == "" {
+					n = "_"
+				}
+				ps = append(ps, n)
+			}
+			fmt.Printf("%s\t%s\t%s\t%s\n", c.File, c.Key, strings.Join(orderedLocals(fn), " "), strings.Join(ps, " "))
+		}
+		return 0
 	}
 	if cmd == "ssa" {
 		for k, fn := range w.funcs {
